@@ -651,7 +651,8 @@ class Interp:
                 dflt_false = c is not None and c.get("int") == 0
             if dflt_false:
                 res = ("peekis", a0[1], a0[2], a0[3])
-        elif callee in ("std::iter::IntoIterator::into_iter", "std::ops::Try::branch", "std::clone::Clone::clone"):
+        elif callee in ("std::iter::IntoIterator::into_iter", "std::ops::Try::branch", "std::clone::Clone::clone",
+                        "std::result::Result::<T, E>::map_err", "std::result::Result::<T, E>::unwrap", "std::result::Result::<T, E>::expect"):
             res = a0 if a0 is not None and a0[0] != REF else (self._deref(st, a0[1])[1] if a0 is not None else None)
         elif callee.endswith("as pest::Parser<tx3_lang::parsing::Rule>>::parse") or resolved.endswith("as pest::Parser<tx3_lang::parsing::Rule>>::parse") or callee == "pest::Parser::parse":
             r = None
